@@ -59,10 +59,22 @@ def random_case(rng, tier):
             if rng.random() < 0.5:
                 crashes[str(boundary)] = 2 if rng.random() < 0.15 else 1
     media = [rng.choice(persist.MEDIA) for _ in range(3)]
-    return {'program': program, 'crashes': crashes, 'media': media, 'loader': rng.choice(['default', 'default', 'custom'])}
+    case = {'program': program, 'crashes': crashes, 'media': media, 'loader': rng.choice(['default', 'default', 'custom'])}
+    if rng.random() < 0.3:
+        # "checkpointed and restored between the return and the next step": the pause is requested while the step function
+        # runs, carried out with the transition the returned command asks for, and the checkpoint is written when the
+        # listeners are told that the process is paused
+        case['pause_in_step'] = sorted({rng.randint(1, len(program['steps']) + 1) for _ in range(rng.randint(1, 2))})
+        case['crash_on_paused'] = sorted({rng.randint(1, 2) for _ in range(rng.randint(1, 2))})
+    return case
 
 
 def shrink(case):
+    for key in ('pause_in_step', 'crash_on_paused'):
+        for i in range(len(case.get(key) or [])):
+            candidate = copy.deepcopy(case)
+            del candidate[key][i]
+            yield candidate
     for key in list(case['crashes']):
         candidate = copy.deepcopy(case)
         del candidate['crashes'][key]
@@ -89,7 +101,8 @@ def shrink(case):
 def run(case):
     result = Result()
     seams.begin_case()
-    runner = persist.RestartRun(case['program'], case.get('crashes'), case.get('media'), case.get('loader', 'default'))
+    runner = persist.RestartRun(case['program'], case.get('crashes'), case.get('media'), case.get('loader', 'default'),
+                                pause_in_step=case.get('pause_in_step'), crash_on_paused=case.get('crash_on_paused'))
     try:
         proc = runner.run()
         if runner.runaway is not None:
@@ -131,6 +144,9 @@ def _oracle(runner, proc, result, case):
     for event in events:
         if event[0] == 'crash':
             result.counters[f'medium:{event[3]}'] += 1
+            if str(event[2]).startswith('paused-notification'):
+                result.counters['probe:restore_from_paused_notification'] += 1
+                continue
             result.counters['probe:restore_in_waiting' if event[2] == 'waiting' else 'probe:restore_before_continuation'] += 1
     if any(v > 1 for v in (case.get('crashes') or {}).values()) and runner.restores >= 2:
         result.counters['probe:double_restore'] += 1
